@@ -32,6 +32,9 @@ import (
 
 var allocSample = []metrics.Sample{{Name: "/gc/heap/allocs:bytes"}}
 
+// allocated reads a process-wide counter: the difference around a call is the cost of that call only while no other
+// goroutine of the process allocates, which is why every part of this check is explored with ExploreSharded (one
+// worker per child process) and never with r.Explore's worker pool.
 func allocated() uint64 {
 	metrics.Read(allocSample)
 	return allocSample[0].Value.Uint64()
@@ -408,7 +411,7 @@ func main() {
 	r.Rule = "exhaustive short inputs (every byte string up to the stated length for the vector-tile decoders; every WKB header combination of byte-order byte x type word x SRID flag x boundary element counts at two nesting levels x every truncation; every WKT sentence up to the stated number of tokens over a 16-token alphabet; a GeoJSON/BSON document menu) and the single-mutation closure of valid encodings (truncate at every length, flip every bit, overwrite every 4-byte word with every boundary count, splice every prefix with every suffix of another encoding); every input goes through every decode entry point of its format; non-trivial = at least one entry point accepts the input (returns a value)"
 	r.Assume = []string{
 		"every part runs in single-goroutine child processes with a 12 GiB address-space limit, a per-execution 60 s watchdog (a hang is a violation) and a crash journal (a process death is a violation naming the input)",
-		"allocation per decoder call is measured with runtime/metrics /gc/heap/allocs:bytes and must stay below 4096 x len(input) + 4 MiB (an order of magnitude above the legitimate worst case of MaxPointsAlloc x 16 B)",
+		"allocation per decoder call is measured with runtime/metrics /gc/heap/allocs:bytes and must stay below 256 x len(input) + 4 MiB (an order of magnitude above the legitimate worst case of MaxPointsAlloc x 16 B)",
 		"coverage-guided fuzzing and asymptotic (large-input) behaviour are outside this family of technique",
 	}
 	counts := []uint32{0, 1, 2, 1 << 28, 1<<28 + 1, 1 << 31, 1<<32 - 1, 1 << 27}
@@ -925,11 +928,20 @@ func main() {
 	}
 	// every short byte string handed to the BSON entry points, directly and through the driver
 	shortAlphabet := []byte{0x00, 0x01, 0x04, 0x05, 0x06, 0x10, 0x80, 0xff}
-	r.Explore("bson-short-inputs", "every byte string of at most 5 bytes over {00,01,04,05,06,10,80,ff} (every declared document length below, at and above the minimum, negative ones included) handed to the BSON unmarshalling methods directly and through bson.Unmarshal", mc.Opts{MaxDev: -1}, func(c *mc.Ctx) {
+	// (sharded into single-goroutine children like every other part: guard's allocation counter is process-wide, and
+	// with several workers in one process a call is charged with what the other workers allocate meanwhile)
+	r.ExploreSharded("bson-short-inputs", "every byte string of at most 5 bytes over {00,01,04,05,06,10,80,ff} (every declared document length below, at and above the minimum, negative ones included) handed to the BSON unmarshalling methods directly and through bson.Unmarshal", mc.Opts{MaxDev: -1, Workers: 1}, 16, func(c *mc.Ctx) {
 		n := c.Choose(6)
 		b := make([]byte, n)
 		for i := range b {
-			b[i] = shortAlphabet[c.Choose(len(shortAlphabet))]
+			k := c.Choose(len(shortAlphabet))
+			if i == 0 && !r.Owned(c, n*len(shortAlphabet)+k) {
+				return
+			}
+			b[i] = shortAlphabet[k]
+		}
+		if n == 0 && !r.Owned(c, 0) {
+			return
 		}
 		accepted(c, decodeBSON(c, b, hx(b)))
 	})
